@@ -155,7 +155,14 @@ def run(ck, prog, tier):
     if len(counters) != 1:
         raise AnalysisError('clip_segment: iteration counter not identified (%s)' % counters)
     counter = counters[0]
-    segname = 'segment'
+    # the working segment is the variable the loop returns as second element
+    seg_names = {r.value.elts[1].id for r in ast.walk(fn.node)
+                 if isinstance(r, ast.Return) and isinstance(r.value, ast.Tuple)
+                 and len(r.value.elts) == 2 and isinstance(r.value.elts[1], ast.Name)}
+    if len(seg_names) != 1:
+        raise AnalysisError('clip_segment: the returned working segment is not one variable (%s)'
+                            % sorted(seg_names))
+    segname = seg_names.pop()
     axes = axis_cases()
     ck.extra['order_types_per_axis'] = len(axes)
     n_cases = n_steps = 0
